@@ -224,8 +224,12 @@ class Program(object):
                     self._index_body(mod, h.body, top)
                 self._index_body(mod, st.orelse, top)
             elif isinstance(st, ast.If):
-                self._index_body(mod, st.body, top)
-                self._index_body(mod, st.orelse, top)
+                # `if PY3: ... else: ...` (compat module): only the Python 3 branch exists for the pinned interpreter
+                if isinstance(st.test, ast.Name) and st.test.id == 'PY3':
+                    self._index_body(mod, st.body, top)
+                else:
+                    self._index_body(mod, st.body, top)
+                    self._index_body(mod, st.orelse, top)
 
     def _add_function(self, mod, node, qualname, cls, parent):
         fi = FunctionInfo(mod, node, qualname, cls, parent)
@@ -418,6 +422,8 @@ class Program(object):
             _, mod, name, exprs = r
             # use the last assignment
             v = exprs[-1]
+            if isinstance(v, ast.Name) and v.id == name:
+                return ('ext', name)         # `range = range` (compat aliases of builtins)
             if isinstance(v, (ast.Name, ast.Attribute, ast.Call)):
                 rr = self.resolve_expr(mod, v)
                 if rr is not None and rr[0] != 'callexpr':
